@@ -3,7 +3,31 @@
 import json
 HOOK_COMMITS = ["448eaea", "f23b98f", "7982710"]  # filled in when hook commits exist in /repo
 checks = {}
+# additions of the last seeded-change rounds (DESIGN section 9, rounds 3 and 4)
+ADDENDA = {
+    "C01": "External witness vectors are written with canonical, balanced and negative entries; one case in five proves on a persistent tree re-created from its location, one in six on an instance built from a second valid key file; histories contain requests the tree must refuse and a contained failure on another instance; a quarter of the cases verify on a second thread of the caller.",
+    "C02": "Inputs cut after the values / after the length field / one byte short are generated here as well; the unmodified message is shown to a second verifier in the same process that holds another verification key; a quarter of the cases verify on a second thread of the caller.",
+    "C03": "Messages carry x as zerokit's own signal hash computes it; two different signals giving one x is reported; 32-byte signal pairs congruent modulo p are generated.",
+    "C04": "Fixed part: the circuit's own witness vector written canonical / balanced / negative goes through generate_proof_with_witness and must verify for the formulas' values; one request proved from tree state through each writer behaviour; the circuit is also evaluated from a buffer that held a sibling graph just before.",
+    "C05": "Predecessors of an evaluation include an evaluation handed a damaged graph file (contained) and a same-length sibling graph loaded into the same caller buffer.",
+    "C09": "Byte strings include lengths 2^k-1 / 2^k / 2^k+1 up to 2^17 (2^20 thorough); outputs handed out through the C interface are re-read after later calls.",
+    "C10": "Streams of valid and refused proving requests over the three entries into one writer (once per writer behaviour) must consist of exactly the documented records; bytes of unseeded identities are checked through the documented relations.",
+    "C11": "Half of the histories let a second long-lived thread of the caller make the state reads, the calls, or both in alternation.",
+    "C12": "After Err nothing may have reached the caller's writer; one case in six runs on an instance built from a second valid key file; histories contain refused tree requests and a contained failure on another instance.",
+    "C14": "Identities handed out through the C interface are re-read after later calls.",
+    "C17": "Probes include the first two positions outside the tree (every build must refuse them without crashing).",
+    "C18": "Also: long-lived reader threads behind the C interface after writes by another thread; witness evaluation on intact and damaged graph files among the shared calls; instances created from a second key file by several threads at once; creating an instance of another height on a used location must return within 60 s (else exit 2).",
+    "C20": "One case in eight first hands calc_witness a damaged copy of the container (contained).",
+    "C06": "A quarter of the histories have the state read back by a second long-lived thread of the caller.",
+    "C08": "A quarter of the histories have the state read back by a second long-lived thread of the caller.",
+    "C15": "A quarter of the histories have the state read back by a second long-lived thread of the caller.",
+    "C13": "A quarter of the cases verify on a second thread of the caller.",
+}
+
+
 def add(pid, level, text, note, technique, design_ref, thorough=True):
+    if pid in ADDENDA:
+        text = text + " " + ADDENDA[pid]
     checks[pid] = {
         "property_id": pid,
         "quick_cmd": f"./check {pid} quick",
